@@ -144,6 +144,7 @@ def run(tier, replay=None):
     if not ok:
         report.violation({"kind": "broken-obligation", "obligation": "model Run/C03Run.vo does not build against the regenerated catalogue", "detail": log[-1500:], "also": proof.get("broken")}, False, tag="modelbuild")
         return report.finish()
+    common.coq_make(["Proofs/CatalogueProofs.vo"])
     # search: which catalogue entry breaks which consistency rule (names the concrete function when the table theorem no longer checks)
     ok2, out = common.coq_eval("c03_facts", "From SG Require Import Base.Prelude Model.Functions Proofs.CatalogueProofs Gen.Catalogue.\n",
                                "Eval vm_compute in (unique_sf catalogue, all_parse catalogue, classes_eq_yaml, pairing_ok catalogue,\n"
